@@ -319,10 +319,15 @@ def gen_case(seed):
                     sp = ['@%d' % r.below(3) if s == '@' else s for s in spath]
                     w_ = {'path': sp, 'vals': _vals_for(r, attrs, name, swarm),
                           'mask': [1 if r.chance(70) else 0 for _ in range(r.rint(1, 4))]}
-                    if attrs['kind'] in ('acc_list', 'acc_nd') and '@' not in tgt and r.chance(40):
-                        # "add what I saw": the update is the viewed object itself
+                    if attrs['kind'] in ('acc_list', 'acc_nd') and '@' not in tgt and r.chance(50):
+                        # "add what I saw": the update is an object the process was shown - the value
+                        # of this variable, or of another variable of the same kind it also writes
                         w_['echo'] = list(spath)
-                        w_['mask'] = [1, 0, 0, 0, 0, 0, 0, 0, 0, 0, 0, 0]    # the value doubles each time
+                        same = [sp_ for sp_, t_ in decl if '@' not in t_ and t_ != tgt
+                                and pool[t_]['kind'] == attrs['kind']]
+                        if same and r.chance(70):
+                            w_['echo'] = list(r.pick(same))
+                        w_['mask'] = [1, 0, 0, 0, 0, 0, 0, 0, 0, 0, 0, 0]    # values grow geometrically
                     writes.append(w_)
                 if swarm['composite_init'] and '@' not in tgt and r.chance(20) \
                         and attrs['kind'] in ('acc_int', 'set') and tgt not in init_given:
